@@ -28,9 +28,14 @@ impl Prop for Unsol {
         ]
     }
     fn strategy(tier: Tier) -> BoxedStrategy<Case> {
-        case_strategy(false, if tier == Tier::Quick { 24 } else { 48 })
-            .prop_map(|mut c| {
+        // plus: DISABLE_UNSOLICITED sent by broadcast (no reply; it must stop the reporting all the same)
+        (case_strategy(false, if tier == Tier::Quick { 24 } else { 48 }), proptest::collection::vec((any::<u16>(), 0u8..3), 0..2))
+            .prop_map(|(mut c, bd)| {
                 c.unsolicited = true;
+                for (pos, mode) in bd {
+                    let i = (pos as usize * (c.ops.len() + 1)) >> 16;
+                    c.ops.insert(i, Op::Broadcast(mode, 3));
+                }
                 c
             })
             .boxed()
